@@ -6,6 +6,7 @@ import (
 	"encoding/json"
 	"fmt"
 	"math"
+	"os"
 	"strconv"
 	"sync"
 	"sync/atomic"
@@ -16,6 +17,7 @@ import (
 	"github.com/gotid/god/internal/verifdrv"
 	"github.com/gotid/god/internal/verifexec"
 	"github.com/gotid/god/lib/executors"
+	"github.com/gotid/god/lib/logx"
 	"github.com/gotid/god/lib/timex"
 )
 
@@ -34,7 +36,8 @@ type verifC16Op struct {
 }
 
 type verifC16Case struct {
-	Ops []verifC16Op `json:"ops"`
+	Log bool         `json:"log"` // the package's stat-log switch (logEnabled) during the case
+	Ops []verifC16Op `json:"ops"` // the report writer is installed by the "setwriter" op, not before
 }
 
 type verifC16Add struct {
@@ -65,6 +68,8 @@ type verifC16Batch struct {
 	RDrops int   `json:"rdrops"` // report.Drops
 	SumMs  int64 `json:"sum_ms"` // report: round(Average * count)
 	Named  bool  `json:"named"`  // report carries the metrics name
+	// a report writer was installed when this period was executed
+	Written bool `json:"written"`
 }
 
 // verifC16Writer is the process-wide report writer: reports are queued per metrics name; a Write can be held.
@@ -72,6 +77,7 @@ type verifC16Writer struct {
 	p      *verifexec.Probe
 	mu     sync.Mutex
 	byName map[string][]*StatReport
+	on     int32         // installed through SetReportWriter
 	gate   chan struct{} // non-nil: the next Write parks (inside stat's writeLock)
 	parked int
 }
@@ -118,7 +124,7 @@ type verifC16Tap struct {
 }
 
 func (c *verifC16Tap) Execute(v any) {
-	b := verifC16Batch{Start: c.p.Next(), IDs: []int{}}
+	b := verifC16Batch{Start: c.p.Next(), IDs: []int{}, Written: atomic.LoadInt32(&c.w.on) == 1}
 	c.mu.Lock()
 	gate := c.gate
 	if gate != nil {
@@ -153,7 +159,9 @@ func (c *verifC16Tap) Execute(v any) {
 }
 
 func TestVerifDriverC16(t *testing.T) {
-	DisableLog()
+	if os.Getenv("VERIF_C16_LOGX_OFF") == "1" {
+		logx.DisableStat() // one-way, process-wide: these cases run in a process of their own
+	}
 	verifdrv.Run(t, func(raw json.RawMessage) any {
 		var c verifC16Case
 		if err := json.Unmarshal(raw, &c); err != nil {
@@ -161,8 +169,10 @@ func TestVerifDriverC16(t *testing.T) {
 		}
 		timex.VerifSetNow(time.Hour)
 		w := &verifC16Writer{byName: map[string][]*StatReport{}}
-		SetReportWriter(w)
+		SetReportWriter(nil)
 		defer SetReportWriter(nil)
+		logEnabled.Set(c.Log)
+		defer logEnabled.Set(true)
 		m := NewMetrics("verif")
 		p := verifexec.Attach(m.executor)
 		w.p = p
@@ -219,6 +229,9 @@ func TestVerifDriverC16(t *testing.T) {
 				mu.Lock()
 				calls[k].Ret = p.Next()
 				mu.Unlock()
+			case "setwriter":
+				SetReportWriter(w)
+				atomic.StoreInt32(&w.on, 1)
 			case "tick":
 				tk := verifC16Tick{Seq: p.Next()}
 				tk.Delivered = p.Tick()
@@ -283,16 +296,20 @@ func TestVerifDriverC16(t *testing.T) {
 					defer close(first)
 					simple(verifC16Op{Op: op.Via})
 				}()
-				held := p.UntilFor(verifexec.Patience/4, func() bool {
-					w.mu.Lock()
-					defer w.mu.Unlock()
-					return w.parked > 0
-				})
+				held := false
+				if atomic.LoadInt32(&w.on) == 1 { // without a writer no Write can be held
+					held = p.UntilFor(verifexec.Patience/4, func() bool {
+						w.mu.Lock()
+						defer w.mu.Unlock()
+						return w.parked > 0
+					})
+				}
 				second := make(chan struct{})
 				go func() {
 					defer close(second)
 					if op.Second == "setwriter" {
 						SetReportWriter(w)
+						atomic.StoreInt32(&w.on, 1)
 					} else {
 						m2.executor.Flush()
 					}
@@ -398,7 +415,7 @@ func TestVerifDriverC16(t *testing.T) {
 		defer tap2.mu.Unlock()
 		all := append(append([]verifC16Batch{}, tap.batches...), tap2.batches...)
 		for _, b := range all {
-			if hung == "" && (b.Count < 0 || !b.Named) {
+			if hung == "" && b.Written && (b.Count < 0 || !b.Named) {
 				hung = "the report of an executed period never reached the report writer"
 			}
 		}
